@@ -123,8 +123,9 @@ def bytes_of(s):
 # ---------------------------------------------------------------------------
 
 class Ctx:
-    def __init__(self, mod, tier, seed):
+    def __init__(self, mod, tier, seed, parts=()):
         self.mod = mod
+        self.parts = list(parts)
         self.meta = mod.META
         self.pid = self.meta['id']
         self.tier = tier
@@ -170,44 +171,68 @@ class Ctx:
         print('  note:', s, flush=True)
 
     # -- (A) translators -------------------------------------------------------
+    def modules(self):
+        return [self.mod] + self.parts
+
     def run_gen(self):
-        gen = getattr(self.mod, 'gen', None)
-        if gen is None:
-            return
-        try:
-            gen(self)
-        except GenError as ex:
-            self.broken.append(('tie', 'translator', str(ex)))
-        except Exception as ex:  # any crash of a translator is a broken tie, too
-            self.broken.append(('tie', 'translator', '%s: %s' % (type(ex).__name__, ex)))
+        for m in self.modules():
+            gen = getattr(m, 'gen', None)
+            if gen is None:
+                continue
+            try:
+                gen(self)
+            except GenError as ex:
+                self.broken.append(('tie', 'translator %s' % m.__name__, str(ex)))
+            except Exception as ex:  # any crash of a translator is a broken tie, too
+                self.broken.append(('tie', 'translator %s' % m.__name__,
+                                    '%s: %s' % (type(ex).__name__, ex)))
+
+    def coq_targets(self):
+        t = []
+        if self.meta.get('coq_target'):
+            t.append(self.meta['coq_target'])
+        t += list(self.meta.get('coq_extra', []))
+        for p in self.parts:
+            t += list(p.PART.get('coq_targets', []))
+        out = []
+        for x in t:
+            if x not in out:
+                out.append(x)
+        return out
 
     # -- (B) proofs --------------------------------------------------------------
     def coq_build(self):
         """make the property's target (full .vo), then recompile the Properties file to capture
         Print Assumptions; count obligations in the dependency cone."""
-        target = self.meta['coq_target']
-        extra = list(self.meta.get('coq_extra', []))
+        targets = self.coq_targets()
         bad = scan_forbidden()
         if bad:
             self.broken.append(('proof', 'forbidden-construct', '; '.join(bad[:5])))
             return False
-        rc, out = coq_make([target] + extra, timeout=self.n(1500, 3000))
+        rc, out = coq_make(targets, timeout=self.n(1500, 3000))
         self.build_log = out
         if rc != 0:
             m = re.search(r'File "([^"]+)", line (\d+)', out)
-            where = '%s:%s' % (m.group(1), m.group(2)) if m else target
+            where = '%s:%s' % (m.group(1), m.group(2)) if m else ' '.join(targets)
             name = failing_lemma(where) if m else None
             tail = '\n'.join(out.strip().splitlines()[-12:])
             self.broken.append(('proof', name or where, tail))
             return False
-        # Print Assumptions output: recompile the (tiny) property file
-        vfile = target[:-1]
-        rc, out = sh(['coqc', '-Q', '.', 'DS', vfile], timeout=600, cwd=COQ)
-        if rc != 0:
-            self.broken.append(('proof', vfile, out[-1500:]))
-            return False
-        self.assumptions_text = out.strip()
-        self.cone_files = cone_of(vfile)
+        # Print Assumptions output: recompile the (tiny) property files
+        texts = []
+        cone = []
+        for target in targets:
+            vfile = target[:-1]
+            cone += [f for f in cone_of(vfile) if f not in cone]
+            if not vfile.startswith('Properties/'):
+                continue
+            rc, out = sh(['coqc', '-Q', '.', 'DS', vfile], timeout=900, cwd=COQ)
+            if rc != 0:
+                self.broken.append(('proof', vfile, out[-1500:]))
+                return False
+            texts.append('[%s] %s' % (vfile, out.strip()))
+        self.assumptions_text = '\n'.join(texts)
+        self.cone_files = sorted(cone)
         ob = 0
         for f in self.cone_files:
             txt = open(os.path.join(COQ, f)).read()
@@ -352,8 +377,8 @@ class Ctx:
         cov = dict(
             obligations=self.obligations,
             discharged=self.discharged if not any(b[0] == 'proof' for b in self.broken) else 0,
-            checker_cmd='cd /verif/coq && make %s && coqc -Q . DS %s'
-                        % (meta['coq_target'], meta['coq_target'][:-1]),
+            checker_cmd='cd /verif/coq && make ' + ' '.join(self.coq_targets()),
+            parts=[p.PART.get('name') for p in self.parts],
             trusted_base=tb,
             evaluations=self.evaluations,
             distinct_nontrivial=len(self.nontrivial),
@@ -416,7 +441,7 @@ def cone_of(vfile):
             continue
         seen.append(f)
         txt = open(os.path.join(COQ, f)).read()
-        for m in re.finditer(r'From\s+DS\s+Require\s+(?:Import|Export)\s+((?:[\w.]+\s+)*[\w.]+?)\.(?:\s|$)',
+        for m in re.finditer(r'From\s+DS\s+Require\s+(?:Import|Export)\s+((?:[\w.]+[ \t]+)*[\w.]+?)\.(?:\s|$)',
                              txt):
             for mod in m.group(1).split():
                 todo.append(mod.replace('.', '/') + '.v')
@@ -461,9 +486,14 @@ def load_known():
          fixed: property=Cxx <commit> <what failed>        (suppresses nothing)
     """
     out = []
-    if not os.path.exists(KNOWN):
-        return out
-    for ln in open(KNOWN):
+    files = [KNOWN] if os.path.exists(KNOWN) else []
+    kd = os.path.join(VERIF, 'known')      # per-property fragments (merged into KNOWN at integration)
+    if os.path.isdir(kd):
+        files += [os.path.join(kd, f) for f in sorted(os.listdir(kd)) if f.endswith('.txt')]
+    lines = []
+    for fn in files:
+        lines += open(fn).read().splitlines()
+    for ln in lines:
         ln = ln.strip()
         if not ln.startswith('KNOWN '):
             continue
@@ -490,7 +520,10 @@ def main(argv):
     use_repo()
     sys.path.insert(0, VERIF)
     mod = importlib.import_module('props.%s' % a.prop.lower())
-    ctx = Ctx(mod, a.tier, seed)
+    parts = load_parts(a.prop.lower())
+    ctx = Ctx(mod, a.tier, seed, parts)
+    if parts:
+        print('  parts: ' + ' '.join(p.PART['name'] for p in parts), flush=True)
     print('== %s (%s) tier=%s seed=%d repo=%s' % (ctx.pid, mod.META['title'], a.tier, seed, REPO),
           flush=True)
     if a.replay:
@@ -499,7 +532,10 @@ def main(argv):
             print('replay file records a proof/correspondence that no longer checks; '
                   're-running the whole check')
         else:
-            still = mod.replay(ctx, obj)
+            still = False
+            for m in ctx.modules():
+                if hasattr(m, 'replay'):
+                    still = bool(m.replay(ctx, obj)) or still
             print('replay: property %s on this input' % ('FAILS' if still else 'holds'))
             return 1 if still else 0
     ctx.run_gen()
@@ -508,15 +544,36 @@ def main(argv):
         print('  coq: %s (%d obligations in %d files)'
               % ('ok' if ok else 'BROKEN', ctx.obligations, len(ctx.cone_files)), flush=True)
     if not any(b[0] == 'proof' and b[1] == 'forbidden-construct' for b in ctx.broken):
+        for m in ctx.modules():
+            if not hasattr(m, 'correspondence'):
+                continue
+            try:
+                m.correspondence(ctx)
+            except Exception as ex:
+                import traceback
+                ctx.broken.append(('correspondence', 'harness %s' % m.__name__,
+                                   traceback.format_exc()[-1500:]))
+    for m in ctx.modules():
+        if not hasattr(m, 'oracle'):
+            continue
         try:
-            mod.correspondence(ctx)
+            m.oracle(ctx)
         except Exception as ex:
             import traceback
-            ctx.broken.append(('correspondence', 'harness',
-                               traceback.format_exc()[-1500:]))
-    try:
-        mod.oracle(ctx)
-    except Exception as ex:
-        import traceback
-        ctx.broken.append(('oracle', 'harness', traceback.format_exc()[-1500:]))
+            ctx.broken.append(('oracle', 'harness %s' % m.__name__, traceback.format_exc()[-1500:]))
     return ctx.finish()
+
+
+def load_parts(prop):
+    """props/parts/<prop>_*.py with PART['ready'] true: per-simulator parts of a cross-cutting
+    property (C02, C03, C04, C05, C06, C07, C10)"""
+    import importlib
+    d = os.path.join(VERIF, 'props', 'parts')
+    out = []
+    if os.path.isdir(d):
+        for f in sorted(os.listdir(d)):
+            if f.startswith(prop + '_') and f.endswith('.py'):
+                m = importlib.import_module('props.parts.' + f[:-3])
+                if m.PART.get('ready'):
+                    out.append(m)
+    return out
